@@ -1637,7 +1637,7 @@ func c09Edge(w *World, r *Result, rule string) {
 				for _, hb := range h.Blocks {
 					for _, hi := range hb.Instrs {
 						mu, ok := hi.(*ssa.MapUpdate)
-						if !ok || !dominatesReturns(h, hb) {
+						if !ok || !(dominatesReturns(h, hb) || onlyIfAbsent(h, hb, mu)) {
 							continue
 						}
 						keyArg := argForParam(h, mu.Key, call)
@@ -1826,6 +1826,115 @@ func c09Edge(w *World, r *Result, rule string) {
 
 // reachesBefore: a is executed on every path before b (dominance, or same map key update in a join).
 // appendsFeeding: the append calls whose result reaches v (directly or through merges of a loop).
+// createdParser: ins creates a parser for an imported file inside the method fn of the parser:
+// a call of a package function that returns one (by pointer, or by value stored into a local),
+// or a literal of the parser type on which a method is called. The anchor is the value the
+// fields of the new parser are reached through.
+func createdParser(w *World, fn *ssa.Function, ins ssa.Instruction) (ssa.Value, token.Pos) {
+	if len(fn.Params) == 0 {
+		return nil, token.NoPos
+	}
+	recvPtr, ok := fn.Params[0].Type().Underlying().(*types.Pointer)
+	if !ok {
+		return nil, token.NoPos
+	}
+	switch x := ins.(type) {
+	case *ssa.Call:
+		callee := x.Call.StaticCallee()
+		if callee == nil || pkgOf(callee) != w.Pkgs["parser"].Types || callee.Signature.Recv() != nil || callee.Signature.Results().Len() != 1 {
+			return nil, token.NoPos
+		}
+		resT := callee.Signature.Results().At(0).Type()
+		switch {
+		case types.Identical(resT, fn.Params[0].Type()):
+			return x, x.Pos()
+		case types.Identical(resT, recvPtr.Elem()):
+			for _, ref := range *x.Referrers() {
+				if st, ok := ref.(*ssa.Store); ok && st.Val == ssa.Value(x) {
+					return st.Addr, x.Pos()
+				}
+			}
+		}
+	case *ssa.Alloc:
+		pt, ok := x.Type().Underlying().(*types.Pointer)
+		if !ok || !types.Identical(pt.Elem(), recvPtr.Elem()) {
+			return nil, token.NoPos
+		}
+		// written field by field (a literal), and used as the receiver of a method
+		fields, whole, method := 0, 0, false
+		for _, ref := range *x.Referrers() {
+			switch y := ref.(type) {
+			case *ssa.FieldAddr:
+				for _, r2 := range *y.Referrers() {
+					if _, ok := r2.(*ssa.Store); ok {
+						fields++
+					}
+				}
+			case *ssa.Store:
+				if y.Addr == ssa.Value(x) {
+					whole++
+				}
+			case *ssa.Call:
+				if len(y.Call.Args) > 0 && y.Call.Args[0] == ssa.Value(x) && y.Call.StaticCallee() != nil && y.Call.StaticCallee().Signature.Recv() != nil {
+					method = true
+				}
+			}
+		}
+		if fields > 0 && whole == 0 && method {
+			return x, x.Pos()
+		}
+	}
+	return nil, token.NoPos
+}
+
+// onlyIfAbsent: the store into the map is skipped only where the element it would add was found
+// in the entry already (if !slices.Contains(m[k], e) { m[k] = append(m[k], e) }).
+func onlyIfAbsent(h *ssa.Function, blk *ssa.BasicBlock, mu *ssa.MapUpdate) bool {
+	par := blk.Idom()
+	if par == nil || len(par.Succs) != 2 || !dominatesReturns(h, par) {
+		return false
+	}
+	c, neg := condOf(par)
+	call, ok := c.(*ssa.Call)
+	if !ok || !strings.HasPrefix(calleeName(call), "slices.Contains") || len(call.Call.Args) != 2 {
+		return false
+	}
+	// taken on the "not contained" side
+	side := par.Succs[1]
+	if neg {
+		side = par.Succs[0]
+	}
+	if side != blk || len(blk.Preds) != 1 {
+		return false
+	}
+	// the list that was searched is the entry under the same key, the element is what gets appended
+	sameLoad := func(a, b ssa.Value) bool {
+		if a == b {
+			return true
+		}
+		ua, ok1 := a.(*ssa.UnOp)
+		ub, ok2 := b.(*ssa.UnOp)
+		if !ok1 || !ok2 {
+			return false
+		}
+		fa, ok1 := ua.X.(*ssa.FieldAddr)
+		fb, ok2 := ub.X.(*ssa.FieldAddr)
+		return ok1 && ok2 && fa.X == fb.X && fa.Field == fb.Field
+	}
+	lk, ok := call.Call.Args[0].(*ssa.Lookup)
+	if !ok || !sameLoad(lk.X, mu.Map) || lk.Index != mu.Key {
+		return false
+	}
+	for _, ap := range appendsFeeding(mu.Value, 0, map[ssa.Value]bool{}) {
+		for _, e := range append(variadicElems(ap.Call.Args[1]), ap.Call.Args[1]) {
+			if e == call.Call.Args[1] {
+				return true
+			}
+		}
+	}
+	return false
+}
+
 func appendsFeeding(v ssa.Value, depth int, seen map[ssa.Value]bool) []*ssa.Call {
 	if v == nil || depth > 4 || seen[v] {
 		return nil
@@ -3480,40 +3589,73 @@ func c09MergeComplete(w *World, r *Result, rule string) {
 		// parsers created here
 		for _, b := range fn.Blocks {
 			for _, ins := range b.Instrs {
-				mk, ok := ins.(*ssa.Call)
-				if !ok {
-					continue
-				}
-				callee := mk.Call.StaticCallee()
-				if callee == nil || pkgOf(callee) != w.Pkgs["parser"].Types || callee.Signature.Results().Len() != 1 || len(fn.Params) == 0 {
-					continue
-				}
-				if callee.Signature.Recv() != nil {
+				if len(fn.Params) == 0 {
 					continue
 				}
 				recvPtr, ok := fn.Params[0].Type().Underlying().(*types.Pointer)
 				if !ok {
 					continue
 				}
-				// the created parser: a pointer result, or a value stored into a local variable
-				var anchor ssa.Value
-				resT := callee.Signature.Results().At(0).Type()
-				switch {
-				case types.Identical(resT, fn.Params[0].Type()):
-					anchor = mk
-				case types.Identical(resT, recvPtr.Elem()):
-					for _, ref := range *mk.Referrers() {
-						if st, ok := ref.(*ssa.Store); ok && st.Val == mk {
-							anchor = st.Addr
-						}
-					}
-				}
+				// the created parser: a pointer result, a value stored into a local variable, or a
+				// literal of the parser type
+				anchor, mkPos := createdParser(w, fn, ins)
 				if anchor == nil {
 					continue
 				}
 				st, ok := recvPtr.Elem().Underlying().(*types.Struct)
 				if !ok {
 					continue
+				}
+				// the call edges kept in an object that the created parser shares by reference with
+				// its creator: nothing has to be merged
+				for fi := 0; fi < st.NumFields(); fi++ {
+					pt, ok := st.Field(fi).Type().Underlying().(*types.Pointer)
+					if !ok {
+						continue
+					}
+					ost, ok := pt.Elem().Underlying().(*types.Struct)
+					if !ok {
+						continue
+					}
+					hasEdges := false
+					for oi := 0; oi < ost.NumFields(); oi++ {
+						if mt, ok := ost.Field(oi).Type().Underlying().(*types.Map); ok && isString(mt.Key()) {
+							if sl, ok := mt.Elem().Underlying().(*types.Slice); ok && isString(sl.Elem()) {
+								hasEdges = true
+							}
+							if inner, ok := mt.Elem().Underlying().(*types.Map); ok && isString(inner.Key()) {
+								hasEdges = true
+							}
+						}
+					}
+					if !hasEdges {
+						continue
+					}
+					sharedRef := false
+					for _, b2 := range fn.Blocks {
+						for _, i2 := range b2.Instrs {
+							st2, ok := i2.(*ssa.Store)
+							if !ok {
+								continue
+							}
+							fa, ok := st2.Addr.(*ssa.FieldAddr)
+							if !ok || fa.X != anchor || fa.Field != fi {
+								continue
+							}
+							if u, ok := st2.Val.(*ssa.UnOp); ok {
+								if f2, ok := u.X.(*ssa.FieldAddr); ok && f2.X == ssa.Value(fn.Params[0]) && f2.Field == fi {
+									sharedRef = true
+								}
+							}
+						}
+					}
+					n++
+					key := fmt.Sprintf("mergeall:%s:%s", FuncName(fn), st.Field(fi).Name())
+					if sharedRef {
+						r.Ok(rule, key, w.Pos(mkPos), "the call edges are kept in an object the parser of the imported file shares by reference with its creator: there is nothing to merge")
+					} else {
+						r.Bad(rule, key, w.Pos(mkPos), "the call edges are kept in an object of their own, and the parser of the imported file gets another one: the calls made inside the imported file never reach the importer, and its functions are removed as unused")
+					}
 				}
 				for fi := 0; fi < st.NumFields(); fi++ {
 					mt, ok := st.Field(fi).Type().Underlying().(*types.Map)
@@ -3535,7 +3677,7 @@ func c09MergeComplete(w *World, r *Result, rule string) {
 					}
 					n++
 					key := fmt.Sprintf("mergeall:%s:%s", FuncName(fn), st.Field(fi).Name())
-					pos := w.Pos(mk.Pos())
+					pos := w.Pos(mkPos)
 					// wholesale copies into the receiver's map
 					whole := ""
 					var rng *ssa.Range
@@ -4131,33 +4273,15 @@ func c09Once(w *World, r *Result, rule string) {
 		if !ok {
 			continue
 		}
+		_ = recvPtr
 		for _, b := range fn.Blocks {
 			for _, ins := range b.Instrs {
-				mk, ok := ins.(*ssa.Call)
-				if !ok {
-					continue
-				}
-				callee := mk.Call.StaticCallee()
-				if callee == nil || pkgOf(callee) != w.Pkgs["parser"].Types || callee.Signature.Recv() != nil || callee.Signature.Results().Len() != 1 {
-					continue
-				}
-				var anchor ssa.Value
-				resT := callee.Signature.Results().At(0).Type()
-				switch {
-				case types.Identical(resT, fn.Params[0].Type()):
-					anchor = mk
-				case types.Identical(resT, recvPtr.Elem()):
-					for _, ref := range *mk.Referrers() {
-						if st, ok := ref.(*ssa.Store); ok && st.Val == mk {
-							anchor = st.Addr
-						}
-					}
-				}
+				anchor, mkPos := createdParser(w, fn, ins)
 				if anchor == nil {
 					continue
 				}
 				n++
-				pos := w.Pos(mk.Pos())
+				pos := w.Pos(mkPos)
 				key := "once:" + FuncName(fn)
 				// (shared) anchor.F = p.F for a map field F, or for a pointer to a bookkeeping object
 				// whose methods consult and update a map of their receiver
